@@ -428,6 +428,19 @@ def run_primitive(spec):
         return errs, N
 
     errs, N = invariants(prim)
+    if not errs and via == "phonopy":
+        # masses changed through the public setter reach primitive, supercell and unit-cell atoms consistently with the index maps
+        newm = 1.0 + 50 * rng_from(spec["key"], 11).random(len(prim))
+        ph.masses = newm
+        prim, sc = ph.primitive, ph.supercell
+        if not np.array_equal(np.asarray(prim.masses), newm):
+            errs.append("masses setter: primitive masses are not the values set")
+        else:
+            e2, _ = invariants(prim)
+            errs += ["after masses setter: " + x for x in e2]
+            u2s = np.array(sc.u2s_map)
+            if not errs and np.abs(np.asarray(ph.unitcell.masses) - np.asarray(sc.masses)[u2s]).max() > 1e-12:
+                errs.append("after masses setter: unit-cell masses differ from those of their supercell atoms (u2s_map)")
     reordered = False
     if not errs and len(prim) >= 2:
         # the documented way to fix the order of primitive atoms: the same invariants must hold for the re-ordered cell
